@@ -10,7 +10,7 @@ import (
 
 func init() {
 	register("C31", propMeta{
-		Explanation:  "Decides the cursor/chunk pairing of the streaming reader and writer: (R1) in reader.Read the chunk index advances on exactly the paths on which a fetched chunk has been delivered completely (single-call delivery, or the buffered remainder being exhausted) and on no partial delivery; (R2) writer.Write advances its chunk index before every successful return and only after the B-tree accepted the chunk; Encoder.Close in update mode removes chunks at increasing indexes until Find misses, failing when a removal fails. (R4) a writer is created at chunk 0 and only Write's increments change its chunk index, so an update replaces an entry from its first chunk.",
+		Explanation:  "Decides the cursor/chunk pairing of the streaming reader and writer: (R1) in reader.Read the chunk index advances on exactly the paths on which a fetched chunk has been delivered completely (single-call delivery, or the buffered remainder being exhausted) and on no partial delivery; (R2) writer.Write advances its chunk index before every successful return and only after the B-tree accepted the chunk; Encoder.Close in update mode removes chunks at increasing indexes until Find misses, failing when a removal fails. (R4) a writer is created at chunk 0 and only Write's increments change its chunk index, so an update replaces an entry from its first chunk. (R5) cursor typestate: after RemoveCurrentItem no cursor-relative call is reachable without a positioning call in between.",
 		DoesNotCover: "Byte equality of decoded values (json.Decoder behaviour over the reader) is not decided.",
 	}, runC31)
 }
